@@ -15,6 +15,7 @@ VERIF = os.path.dirname(os.path.dirname(os.path.abspath(__file__)))
 REPO = os.environ.get('SONIC_REPO', '/repo')
 CACHE = os.path.join(VERIF, '.cache')
 TOOL = os.path.join(VERIF, 'build', 'sonic-facts')
+EVID = os.environ.get('SONIC_EVIDENCE_DIR', os.path.join(VERIF, 'evidence'))
 
 AVX2 = ['-mavx2', '-mbmi', '-mpclmul', '-mlzcnt']
 SSE = ['-msse', '-msse2', '-msse4.1', '-msse4.2', '-mpclmul']
@@ -103,6 +104,7 @@ class Facts:
         self.functions = [Function(f, self) for f in data['functions']]
         self.statics = data['statics']
         self.classes = data['classes']
+        self.enums = data.get('enums', [])
         self.by_qn = {}
         self.by_id = {}
         for f in self.functions:
@@ -121,6 +123,15 @@ class Facts:
             if name_contains is not None and name_contains not in f.name:
                 continue
             out.append(f)
+        return out
+
+    def enum_values(self, prefix='sonic_json::'):
+        """{enumerator name: value} over all enums whose qualified name starts with prefix"""
+        out = {}
+        for en in self.enums:
+            if en['qn'].startswith(prefix) or en['qn'] == '':
+                for v in en['values']:
+                    out[v['name']] = int(v['v'])
         return out
 
     def static(self, qn=None, name=None):
@@ -477,9 +488,9 @@ class Report:
                 printed.append((m, v))
             else:
                 real.append(v)
-        os.makedirs(os.path.join(VERIF, 'evidence', 'replay'), exist_ok=True)
+        os.makedirs(os.path.join(EVID, 'replay'), exist_ok=True)
         # remove stale replay files of this property
-        rdir = os.path.join(VERIF, 'evidence', 'replay')
+        rdir = os.path.join(EVID, 'replay')
         for f in os.listdir(rdir):
             if f.startswith(self.prop + '-'):
                 os.unlink(os.path.join(rdir, f))
@@ -541,7 +552,7 @@ class Report:
         ev = dict(property_id=self.prop, tier=self.tier, seed=self.seed, level=lvl, coverage=cov,
                   assumptions=self.assumptions, wall_s=round(time.time() - self.t0, 3),
                   violations=len(real))
-        with open(os.path.join(VERIF, 'evidence', self.prop + '.json'), 'w') as fh:
+        with open(os.path.join(EVID, self.prop + '.json'), 'w') as fh:
             json.dump(ev, fh, indent=1, sort_keys=False)
         print('%s tier=%s: %d obligations, %d discharged, %d violations, %d known findings; units=%s; functions=%d; rules=%s' % (
             self.prop, self.tier, nob, nok, len(real), len(printed), ','.join(sorted(self.units)), len(self.functions),
